@@ -787,6 +787,7 @@ func genCrop(t *rapid.T) cropCase {
 	}
 	c := cropCase{Tracks: tracks}
 	c.Layout = mp4build.GenProgLayout(t, tracks)
+	mp4build.GenEmptyChunkAt(t, &c.Layout)
 	// one case in six: two chunks of a track change places in the mdat (chunk offsets of the track not increasing)
 	if rapid.IntRange(0, 5).Draw(t, "swapChunks") == 0 {
 		mp4build.GenSwapChunks(t, &c.Layout)
